@@ -43,6 +43,7 @@ type World struct {
 	roles                                 *roleInfo
 	escMemo                               map[*ssa.Function]bool
 	msgStructs                            map[string]bool
+	actorChans                            map[string]bool
 	msgFieldStores                        map[string][]*ssa.Store
 	spawnMemo                             map[*ssa.Function]bool
 	statPaths, statPathFns, statAbsStates int
